@@ -5,10 +5,14 @@
          m: Model.marshal(tree) = the bytes string.dump returned
          u: Model.unmarshal(bytes) = ok (tree, [])
          r: Model.marshal(Model.unmarshal(bytes)) = bytes
+    unit <id> P <proto> <n> <unit constants…> = <tree tokens>   →  R=<0|1>
+         R: Model.Refactor.refactor of the unrefactored prototype (with the chunk's shared constant vector) = the tree
+            the real RefactorCodeConsts produced
     load <index> x<hex> = …             →  ok | err   (Model.load)
 -/
 import Oracle.Proto
 import GoluaVerif.Model.Marshal
+import GoluaVerif.Model.Refactor
 namespace Oracle.C13
 open GoluaVerif Oracle
 open GoluaVerif.Model.Marshal
@@ -86,6 +90,67 @@ partial def showConst : Const → List String
     [toString ks.length] ++ (ks.map showConst).flatten ++
     [toString uv.toInt, toString rc.toInt, toString cc.toInt, toString ups.length] ++ ups.map (fun s => "S" ++ hexOf s)
 
+open GoluaVerif.Model.Refactor in
+def parseProto (r : List String) : Option (Proto × List String) := do
+  let (src, r) ← parseStr r
+  let (name, r) ← parseStr r
+  let (n, r) ← takeTok r
+  let (ops, r) ← parseMany parseWord (← parseNat? n) r
+  let (n, r) ← takeTok r
+  let (lines, r) ← parseMany parseLine (← parseNat? n) r
+  let (uv, r) ← takeTok r
+  let (rc, r) ← takeTok r
+  let (cc, r) ← takeTok r
+  let (n, r) ← takeTok r
+  let (ups, r) ← parseMany parseStr (← parseNat? n) r
+  pure ({ source := src, name := name, ops := ops, lines := lines, uv := BitVec.ofInt 16 (← uv.toInt?),
+          rc := BitVec.ofInt 16 (← rc.toInt?), cc := BitVec.ofInt 16 (← cc.toInt?), ups := ups }, r)
+
+open GoluaVerif.Model.Refactor in
+def parseUConst (ts : List String) : Option (UConst × List String) := do
+  let (t, r) ← takeTok ts
+  if t == "P" then
+    let (p, r) ← parseProto r
+    pure (.code p, r)
+  else if t.startsWith "I" then
+    let n ← (t.drop 1).toString.toInt?
+    pure (.int (BitVec.ofInt 64 n), r)
+  else if t.startsWith "D" then
+    let n ← parseHexNat (t.drop 1).toString
+    pure (.float (BitVec.ofNat 64 n), r)
+  else if t.startsWith "S" then
+    let s ← bytesOfHex (t.drop 1).toString
+    pure (.str s, r)
+  else none
+
+def firstDiffTok : List String → List String → Nat → Option Nat
+  | [], [], _ => none
+  | a :: as, b :: bs, i => if a == b then firstDiffTok as bs (i + 1) else some i
+  | _, _, i => some i
+
+/-- `unit <id> P <proto> <n> <uconst>… = <tree tokens of the real RefactorCodeConsts>`: R=1 iff Model.Refactor agrees -/
+def unitLine (lhs rhs : String) : String :=
+  match (lhs.splitOn " ").filter (· ≠ "") with
+  | _ :: _ :: "P" :: toks =>
+    match parseProto toks with
+    | some (p, n :: rest) =>
+      match parseNat? n with
+      | some k =>
+        match parseMany parseUConst k rest with
+        | some (unit, []) =>
+          let want := (rhs.splitOn " ").filter (· ≠ "")
+          match GoluaVerif.Model.Refactor.refactor 64 unit p with
+          | .ok c =>
+            let got := showConst c
+            (match firstDiffTok got want 0 with
+             | none => "R=1"
+             | some i => "R=0 token@" ++ toString i)
+          | .error e => "R=0 model-error-" ++ reprStr e
+        | _ => "bad-line"
+      | none => "bad-line"
+    | _ => "bad-line"
+  | _ => "bad-line"
+
 def firstDiff : List UInt8 → List UInt8 → Nat → Option Nat
   | [], [], _ => none
   | a :: as, b :: bs, i => if a = b then firstDiff as bs (i + 1) else some i
@@ -121,6 +186,7 @@ def line (l : String) : String :=
   match l.splitOn " = " with
   | [lhs, rhs] =>
     if lhs.startsWith "dump " then dumpLine lhs rhs
+    else if lhs.startsWith "unit " then unitLine lhs rhs
     else if lhs.startsWith "load " then loadLine lhs
     else "?"
   | [lhs] => if lhs.startsWith "load " then loadLine lhs else "?"
